@@ -46,6 +46,18 @@ def pool_core(rng, n_extra):
     for s in ("0 0 aset", "1 5 aset", "1 6 aset", "1 5 aset 7 9 aset add", "2 5 aset", "1 5 aset 6 9 aset add", "7 9 aset 1 5 aset add"):
         P.append((q(s), "aset"))
     P.append((q("{1}"), "closure"))
+    # seeded extras (thorough): random integers in random domains, random strings and nested sequences
+    for _ in range(n_extra):
+        k = rng.random()
+        if k < 0.4:
+            v = rng.choice([rng.getrandbits(rng.randint(1, 63)), -rng.getrandbits(rng.randint(1, 62)), rng.randint(-3, 3)])
+            P.append(("i:%d:%s:%d" % (v, rng.choice(["dec", "hex", "oct", "bin"]), rng.randint(0, 3)), "int"))
+        elif k < 0.7:
+            b = bytes(rng.choice(b"ab\x00\xff ") for _ in range(rng.randint(0, 4)))
+            P.append(("s:%s:0" % b.hex(), "str"))
+        else:
+            items = [rng.choice(["1", "2", "0x1", '"a"', '"b"', "[]", "[1]", "true", "DW_AT_name"]) for _ in range(rng.randint(0, 3))]
+            P.append((q("[" + ", ".join(items) + "]"), "seq"))
     return P
 
 
@@ -109,7 +121,7 @@ def typeof(v):
 def run(chk):
     quick = chk.tier == "quick"
     rng = chk.rng()
-    P = pool_core(rng, 0) + pool_dwarf()
+    P = pool_core(rng, 0 if quick else 110) + pool_dwarf()
     specs = [p[0] for p in P]
     n = len(specs)
     words = WORDS + ["?(|A B| (A %s B))" % op for op in INFIX]
